@@ -354,3 +354,51 @@ func init() {
 			c.Sample(`x="v" literal="{{tick()}}-{{tick()}}" == "7-8"`)
 		}})
 }
+
+// ---------------------------------------------------------------------------
+// escape sequences: "a quoted literal interprets its escape sequences" - byte,
+// octal and unicode escapes next to interpolation.
+
+func init() {
+	register(&Part{Prop: "C14", Name: "escape-sequences", Quick: 1, Thor: 1,
+		Desc: "every quoted literal of <= 3 (thorough 4) pieces over the escapes {\\xc3\\xa4, \\xff, \\x41, \\u00e4, \\U0001F600, \\101, \\377, \\t, \\r, \\\\, \\\", \\a} and {a, {{x}}, {{1+1}}}: the value is what Go's strconv.Unquote gives for the escapes, with the expressions substituted",
+		Rule: "odometer over pieces x {x = v, x = {{1+1}}}; every case non-trivial",
+		Run: func(c *Ctx) {
+			pieces := []c14Piece{{`\xc3\xa4`, "\xc3\xa4"}, {`\xff`, "\xff"}, {`\x41`, "A"}, {`\u00e4`, "ä"}, {`ä`, "ä"}, {`\U0001F600`, "\U0001F600"}, {`\101`, "A"}, {`\377`, "\377"},
+				{`\t`, "\t"}, {`\r`, "\r"}, {`\\`, `\`}, {`\"`, `"`}, {`\a`, "\a"}, {"a", "a"}, {"{{x}}", "{{x}}"}, {"{{1+1}}", "{{1+1}}"}}
+			n := 3
+			if c.Thorough() {
+				n = 4
+			}
+			for l := 1; l <= n; l++ {
+				idx := make([]int, l)
+				for {
+					if c.Stopped() {
+						return
+					}
+					if c.Mine() {
+						var sb, vb strings.Builder
+						for _, i := range idx {
+							sb.WriteString(pieces[i].src)
+							vb.WriteString(pieces[i].val)
+						}
+						c14Check(c, sb.String(), vb.String(), 0, false)
+						c14Check(c, sb.String(), vb.String(), 5, false)
+					}
+					k := l - 1
+					for k >= 0 {
+						idx[k]++
+						if idx[k] < len(pieces) {
+							break
+						}
+						idx[k] = 0
+						k--
+					}
+					if k < 0 {
+						break
+					}
+				}
+			}
+			c.Sample(`"\xc3\xa4{{x}}" evaluates to the bytes c3 a4 followed by the text of x`)
+		}})
+}
